@@ -1063,6 +1063,9 @@ where
     /// ## Errors
     /// If the report contents are invalid.
     pub fn from_bytes(mut bytes: Bytes) -> Result<Self, InvalidHybridReportError> {
+        if bytes.is_empty() {
+            return Err(InvalidHybridReportError::Length(0, 1));
+        }
         match HybridEventType::try_from(bytes[0])? {
             HybridEventType::Impression => {
                 bytes.advance(1);
